@@ -251,7 +251,7 @@ def default_ports() -> List[int]:
     return list(inspect.signature(SwitcherBridge.__init__).parameters["broadcast_ports"].default)
 
 
-CALLBACK_FORMS = ("function", "lambda", "method", "partial", "callable-object", "start-again")
+CALLBACK_FORMS = ("function", "lambda", "method", "partial", "callable-object", "start-again", "other-bridge")
 
 
 def callback_in_form(form: str, target):
@@ -337,6 +337,17 @@ async def _run_bridge_sequence(nports: int, arrivals: List[Tuple[int, str]], fai
         if cbform == "start-again":     # start() on a bridge that is running fails (its own ports are taken) and changes nothing
             try:
                 await bridge.start()
+            except Exception:  # noqa
+                pass
+            await asyncio.sleep(0)
+        if cbform == "other-bridge":    # ANOTHER bridge object on the same ports tries to start (in vain) and is stopped: not this one's business
+            other = SwitcherBridge(lambda device: None, list(ports))
+            try:
+                await other.start()
+            except Exception:  # noqa
+                pass
+            try:
+                await other.stop()
             except Exception:  # noqa
                 pass
             await asyncio.sleep(0)
